@@ -5,7 +5,7 @@
 From Coq Require Import Reals List Lra.
 From AhrsLib Require Import Base.
 From AhrsGen Require Import C13gen_R.
-From AhrsProps Require Import C13_lib C13_mm C13_mah C13_rest C13_drv C13_comp.
+From AhrsProps Require Import C13_lib C13_mm C13_mah C13_rest C13_drv C13_comp C13_eq C13_rec.
 Import ListNotations.
 Open Scope R_scope.
 
@@ -104,7 +104,8 @@ Print Assumptions C13_dropout_step_safe_ukf_fkf.
 
 (* FKF driver on two rows, acc[1] = 0 (needs fix C13-fkf-dropout): Q[1] is the re-normalised gyro propagation of Q[0]
    (unit, or zero if Q[0] was zero), the covariance keeps its initial value, the only possible exception is ValueError.
-   PARTIAL: the twin statement for mag[1] = 0 (target C13_fkf_m0) is covered by correspondence and search only. *)
+   The twin statement for mag[1] = 0 (target C13_fkf_m0) is C13_dropout_step_safe_fkf_mag in C13_t_fkf.v, compiled in the
+   thorough tier only (the kernel needs about a minute for it). *)
 Theorem C13_dropout_step_safe_fkf_partial : forall h0 h1 h2 g0 g1 g2 a0 a1 a2 n0 n1 n2 m0 m1 m2,
   norm_leaf P_fkf0 (C13_fkf_a0_R h0 h1 h2 g0 g1 g2 a0 a1 a2 n0 n1 n2 m0 m1 m2).
 Proof. exact fkf_a0. Qed.
@@ -112,14 +113,18 @@ Print Assumptions C13_dropout_step_safe_fkf_partial.
 
 (* Complementary(…, w0=…, Dt=0.02) driver (Dt given, frequency at its default 100) on two rows, acc[1] = 0 (needs fix C13-complementary-dropout): the angles are the
    gyro-integrated previous angles (no blend with a 0/0 tilt), the quaternion is unit.
-   MARG architecture: all three angles, yaw included, are the gyro-integrated previous ones (or ValueError for a null mag).
-   PARTIAL: unit norm of the MARG quaternion built from the angles is covered by correspondence and search only. *)
-Theorem C13_dropout_step_safe_complementary_partial : forall r0 p0 y0 h0 h1 h2 g0 g1 g2 a0 a1 a2 n0 n1 n2 m0 m1 m2,
+   MARG architecture: all three angles, yaw included, are the gyro-integrated previous ones (or ValueError for a null mag),
+   and the quaternion built from them is unit. *)
+Theorem C13_dropout_step_safe_complementary : forall r0 p0 y0 h0 h1 h2 g0 g1 g2 a0 a1 a2 n0 n1 n2 m0 m1 m2,
   comp_leaf (r0 + g0 * (1/50)) (p0 + g1 * (1/50)) (C13_comp_imu_a0_R r0 p0 y0 h0 h1 h2 g0 g1 g2 a0 a1 a2) /\
   comp3_leaf (r0 + g0 * (1/50)) (p0 + g1 * (1/50)) (y0 + g2 * (1/50))
-    (C13_comp_marg_a0_R r0 p0 y0 h0 h1 h2 g0 g1 g2 a0 a1 a2 n0 n1 n2 m0 m1 m2).
-Proof. intros. split; [exact (comp_imu_a0 _ _ _ _ _ _ _ _ _ _ _ _)|exact (comp_marg_a0 _ _ _ _ _ _ _ _ _ _ _ _ _ _ _ _ _ _)]. Qed.
-Print Assumptions C13_dropout_step_safe_complementary_partial.
+    (C13_comp_marg_a0_R r0 p0 y0 h0 h1 h2 g0 g1 g2 a0 a1 a2 n0 n1 n2 m0 m1 m2) /\
+  comp7_leaf (C13_comp_marg_a0_R r0 p0 y0 h0 h1 h2 g0 g1 g2 a0 a1 a2 n0 n1 n2 m0 m1 m2).
+Proof.
+  intros. split; [exact (comp_imu_a0 _ _ _ _ _ _ _ _ _ _ _ _)|].
+  split; [exact (comp_marg_a0 _ _ _ _ _ _ _ _ _ _ _ _ _ _ _ _ _ _)|exact (comp_marg_a0_unit _ _ _ _ _ _ _ _ _ _ _ _ _ _ _ _ _ _)].
+Qed.
+Print Assumptions C13_dropout_step_safe_complementary.
 
 (* dropout_history_safe: a driver `run` that threads ANY step through ANY history: if the step keeps the invariant `ok`
    (unit quaternion, finite carried state) or refuses, both on valid samples (property C03's invariant — a premise) and on
@@ -157,6 +162,67 @@ Proof.
   destruct s0 as [|w [|x [|y [|z [|? ?]]]]]; try exact I. apply dr_unit. exact H0.
 Qed.
 Print Assumptions C13_dropout_history_safe_instance.
+
+(* null magnetometer, valid or null accelerometer: updateMARG IS the IMU step on the normalised quaternion, with the caller's
+   dt — equality of two separately regenerated functions, for ALL reals, every path and every output (quaternion, Madgwick's
+   gains, Mahony's bias and gains).  The specification targets are  q^ = Quaternion(q); gyr null -> q^; else
+   updateIMU(q^, gyr, acc, dt)  (Mahony: updateIMU(q, ...) when acc is null too, where updateMARG never reaches the magnetometer
+   test).  AQUA's version (twin target; updateMARG may additionally refuse a zero product) is
+   C13_null_mag_is_imu_step_aqua in C13_t_aqua.v, thorough tier only. *)
+Theorem C13_null_mag_is_imu_step : forall w x y z g0 g1 g2 a0 a1 a2 b0 b1 b2 dt,
+  C13_mad_m0_R w x y z g0 g1 g2 a0 a1 a2 dt = C13_mad_m0_spec_R w x y z g0 g1 g2 a0 a1 a2 dt /\
+  C13_mah_m0_R w x y z g0 g1 g2 a0 a1 a2 b0 b1 b2 dt = C13_mah_m0_spec_R w x y z g0 g1 g2 a0 a1 a2 b0 b1 b2 dt.
+Proof. intros. rewrite mad_m0_eq, mah_m0_eq. split; reflexivity. Qed.
+Print Assumptions C13_null_mag_is_imu_step.
+
+(* DURING an outage: for ANY driver whose dropout step is its dead reckoning `prop` (and keeps the invariant), an outage of
+   L = length us samples, for every L, emits exactly the L dead-reckoned states, refuses none, and the state the filter resumes
+   from is the L-fold dead reckoning of the pre-outage state *)
+Theorem C13_outage_is_dead_reckoning : forall (St Sample : Type) (step : St -> Sample -> option St) (prop : St -> Sample -> St)
+    (ok : St -> Prop) (dropout : Sample -> bool),
+  (forall s u, ok s -> dropout u = true -> step s u = Some (prop s u) /\ ok (prop s u)) ->
+  forall us s, ok s -> forallb dropout us = true ->
+    run St Sample step s us = (reckon St Sample prop s us, false) /\ Forall ok (reckon St Sample prop s us) /\
+    (us <> [] -> last (reckon St Sample prop s us) s = fold_left prop us s).
+Proof. intros St Sample step prop ok dropout H us s Hs Hd. exact (outage_is_dead_reckoning St Sample step prop ok dropout H us s Hs Hd). Qed.
+Print Assumptions C13_outage_is_dead_reckoning.
+
+(* ... instantiated with the REGENERATED dropout steps of ROLEQ (null acc, any mag) and Madgwick IMU (gain 0.4): whatever the
+   valid-sample step does, an outage of any length from a unit quaternion yields the iterated closed form dr, all unit *)
+Theorem C13_outage_is_dead_reckoning_roleq_madgwick : forall valid us s, unit4 s ->
+  (forallb flagged6 us = true ->
+     run _ _ (rol_step valid) s us = (reckon _ _ gyr_prop s us, false) /\ Forall unit4 (reckon _ _ gyr_prop s us)) /\
+  (forallb flagged3 us = true ->
+     run _ _ (mad_step valid) s us = (reckon _ _ gyr_prop s us, false) /\ Forall unit4 (reckon _ _ gyr_prop s us)).
+Proof.
+  intros valid us s Hs. split; intros F.
+  - destruct (outage_is_dead_reckoning _ _ (rol_step valid) gyr_prop unit4 flagged6 (rol_drop_step valid) us s Hs F) as (A & B & _).
+    split; assumption.
+  - destruct (outage_is_dead_reckoning _ _ (mad_step valid) gyr_prop unit4 flagged3 (mad_drop_step valid) us s Hs F) as (A & B & _).
+    split; assumption.
+Qed.
+Print Assumptions C13_outage_is_dead_reckoning_roleq_madgwick.
+
+(* AFTER an outage, Complementary (gain 0.95, Dt 0.02; regenerated driver step with a valid acc[1]): a deviation d of the
+   previous angles — e.g. the one an outage produced — comes out of one valid sample multiplied by the gain, exactly, on both
+   architectures (all three angles for MARG); hence after n valid samples exactly gain^n of it is left (and never more than |d|)
+   PARTIAL: the n-step statement is about any list of steps obeying the one-step law; the regenerated step is shown to obey it,
+   the list is not tied to a regenerated N-row driver. *)
+Theorem C13_complementary_recovery_partial :
+  (forall r0 p0 y0 d0 d1 d2 h0 h1 h2 g0 g1 g2 a0 a1 a2 c0 c1 c2 n0 n1 n2 m0 m1 m2, 0 < sqrt (c0*c0 + c1*c1 + c2*c2) ->
+     diff_gain (19/20) [d0; d1] (C13_comp_imu_v_R r0 p0 y0 h0 h1 h2 g0 g1 g2 a0 a1 a2 c0 c1 c2)
+                                (C13_comp_imu_v_R (r0 + d0) (p0 + d1) y0 h0 h1 h2 g0 g1 g2 a0 a1 a2 c0 c1 c2) /\
+     diff_gain (19/20) [d0; d1; d2] (C13_comp_marg_v_R r0 p0 y0 h0 h1 h2 g0 g1 g2 a0 a1 a2 c0 c1 c2 n0 n1 n2 m0 m1 m2)
+                                    (C13_comp_marg_v_R (r0 + d0) (p0 + d1) (y0 + d2) h0 h1 h2 g0 g1 g2 a0 a1 a2 c0 c1 c2 n0 n1 n2 m0 m1 m2)) /\
+  (forall gam (fs : list (R -> R)), Forall (fun f => forall x d, f (x + d) - f x = gam * d) fs ->
+     forall x d, fold_left (fun a f => f a) fs (x + d) - fold_left (fun a f => f a) fs x = gam ^ length fs * d) /\
+  (forall gam (fs : list (R -> R)), 0 <= gam <= 1 -> Forall (fun f => forall x d, f (x + d) - f x = gam * d) fs ->
+     forall x d, Rabs (fold_left (fun a f => f a) fs (x + d) - fold_left (fun a f => f a) fs x) <= Rabs d).
+Proof.
+  split; [intros; split; [apply comp_imu_v_contracts; assumption|apply comp_marg_v_contracts; assumption]|].
+  split; [exact contraction_iter|exact contraction_abs].
+Qed.
+Print Assumptions C13_complementary_recovery_partial.
 
 (* non-vacuity: a unit quaternion, a non-trivial gyro sample, and the value of the dropout step on them *)
 Example C13_nonvacuous : sq4 (3/5) 0 (4/5) 0 = 1 /\ unit4 (dr (3/5) 0 (4/5) 0 1 2 3 (1/100)) /\
